@@ -590,6 +590,71 @@ func genWorld(t *rapid.T, maxFiles int, recCombo, http, shadows bool) *World {
 		g := &genCtx{t: t, w: w, f: f, feat: ff, curDef: -1}
 		g.genDoc()
 	}
+	if feat.Docs && len(w.Files) >= 2 && rapid.IntRange(0, 3).Draw(t, "deftitles") == 0 {
+		// definitions that carry the TITLE of another document's root (titles are free-form and repeat across
+		// documents): inert today - only the root's title is ever used for a name
+		for i, f := range w.Files {
+			if isSpecial(f) || len(f.Defs) == 0 {
+				continue
+			}
+			o := w.Files[(i+1)%len(w.Files)]
+			if isSpecial(o) || o == f {
+				continue
+			}
+			key := defsKey(f.Doc)
+			dv, ok := f.Doc.Get(key)
+			do, ok2 := dv.(Obj)
+			if !ok || !ok2 {
+				continue
+			}
+			nd := append(Obj{}, do...)
+			for j := range nd {
+				if nd[j].K == f.Defs[0] {
+					if body, ok := nd[j].V.(Obj); ok {
+						nd[j].V = append(Obj{{"title", "Title " + o.Tag}}, body.Del("title")...)
+					}
+				}
+			}
+			f.Doc = f.Doc.Set(key, nd)
+		}
+	}
+	if SameNameTwins && rapid.IntRange(0, 5).Draw(t, "scopegadget") == 0 {
+		// (C10 worlds) the in-scope bookkeeping of allOf: Cat = allOf[Animal, Pet], Pet.previous = allOf[Meta, Animal] -
+		// when Pet.previous is reached Animal is in scope (a false cycle: previous comes out as interface{}); afterwards
+		// nothing may be left in scope: gztagged = allOf[Meta, extra branch] must still be a struct with Meta's fields
+		for _, f := range w.Files {
+			if isSpecial(f) || !f.RootObj || f.YAML {
+				continue
+			}
+			key := defsKey(f.Doc)
+			var defs Obj
+			if dv, ok := f.Doc.Get(key); ok {
+				defs, _ = dv.(Obj)
+			}
+			str := Obj{{"type", "string"}}
+			ref := func(n string) any { return Obj{{"$ref", "#/" + key + "/" + n}} }
+			cbBranch := func(n string) any {
+				return Obj{{"type", "object"}, {"properties", Obj{{"cb_" + f.Tag + "_" + n, str}}}}
+			}
+			nd := append(Obj{}, defs...)
+			nd = append(nd,
+				KV{"GzAnimal", Obj{{"type", "object"}, {"properties", Obj{{"mk_" + f.Tag + "_GzAnimal", str}}}}},
+				KV{"GzMeta", Obj{{"type", "object"}, {"properties", Obj{{"mk_" + f.Tag + "_GzMeta", str}, {"gzid", Obj{{"type", "integer"}, {"minimum", 1}}}}}, {"required", []any{"gzid"}}}},
+				KV{"GzPet", Obj{{"type", "object"}, {"properties", Obj{{"gzprevious", Obj{{"allOf", []any{ref("GzMeta"), ref("GzAnimal"), cbBranch("gzp")}}}}}}}},
+				KV{"GzCat", Obj{{"type", "object"}, {"allOf", []any{ref("GzAnimal"), ref("GzPet"), cbBranch("gzc")}}}})
+			f.Doc = f.Doc.Set(key, nd)
+			f.Defs = append(f.Defs, "GzAnimal", "GzMeta")
+			props, _ := f.Doc.Get("properties")
+			po, _ := props.(Obj)
+			cb := "cb_" + f.Tag + "_gz"
+			po = append(append(Obj{}, po...),
+				KV{f.Tag + "gzcat", ref("GzCat")},
+				KV{f.Tag + "gztagged", Obj{{"allOf", []any{ref("GzMeta"), Obj{{"type", "object"}, {"properties", Obj{{cb, str}}}}}}}})
+			f.Doc = f.Doc.Set("properties", po)
+			f.Refs = append(f.Refs, RefUse{FromTag: f.Tag, Prop: f.Tag + "gztagged", Ref: "#/" + key + "/GzMeta", ToTag: f.Tag, ToDef: "GzMeta", Spelling: "scopegadget", LocalOnly: true, Combo: "allOf", CB: cb})
+			break
+		}
+	}
 	if SameNameTwins && npkg <= 1 && rapid.IntRange(0, 2).Draw(t, "samename") == 0 {
 		// two documents of one package each define "Sub" - almost, but not quite, the same definition (the copy gained
 		// a field, another default, a constraint). Each must keep a Go type of its own, whichever is generated first.
@@ -1217,7 +1282,9 @@ func (g *genCtx) drawRef(fromDef string) (RefUse, bool) {
 	if err != nil {
 		return RefUse{}, false
 	}
-	spellings := []string{"plain", "dot", "fileurl", "abs", "absurl"}
+	// "viamissing": through a directory that does not exist and back (zz_none/../x.json) - file parts of references are
+	// resolved like URIs, lexically, before the file system is asked
+	spellings := []string{"plain", "dot", "fileurl", "abs", "absurl", "viamissing"}
 	if g.feat.NoExt && len(g.w.Opts.ResolveExt) > 0 {
 		spellings = append(spellings, "noext", "noext")
 	}
@@ -1240,6 +1307,8 @@ func (g *genCtx) drawRef(fromDef string) (RefUse, bool) {
 		} else {
 			ru.Ref = "./" + rel
 		}
+	case "viamissing":
+		ru.Ref = "zz_none/../" + rel
 	case "fileurl":
 		ru.Ref = "file://" + rel
 	case "abs":
@@ -1587,6 +1656,10 @@ func (g *genCtx) genEnum() any {
 	case 2:
 		return Obj{{"enum", []any{"x", 1, true, nil}}}
 	default:
+		if SelfNamedDefs && g.pct("symbolenum", 30) { // C12 worlds only: today they all become "...Undefined", declared several times
+			// values made of punctuation only: their constant names come from a table of special cases
+			return Obj{{"type", "string"}, {"enum", []any{"<", "<=", ">=", "==", "&&", "||", "<>", "!=", "*"}}}
+		}
 		return Obj{{"enum", []any{"one", "two"}}}
 	}
 }
